@@ -260,3 +260,32 @@ for _s in SITES:
         c = mk_site(_s, _a, tier='thorough')
         if c.name not in CONDS:
             _add(c)
+
+
+# ---------------------------------------------------------------- Python iterables: every ORDER of element kinds
+
+ITER_KINDS = ('int', 'bigint', 'float', 'nan', 'none', 'str')   # bool + number in one iterable: finding F19, see site_from_records_*
+
+
+def body_iter_orders(env, k0, k1, k2):
+    from vf import rt
+    ks = [pick(ITER_KINDS, k) for k in (k0, k1, k2)]
+
+    def run():
+        sf = env.sf
+        from static_frame.core.util import iterable_to_array_1d
+        table = {'int': (3, 3), 'bigint': (BIG, BIG), 'float': (1.5, 1.5), 'nan': (env.nan, 'NaN'), 'none': (None, None), 'str': ('wxyz', 'wxyz')}
+        vals = [table[k][0] for k in ks]
+        ref = [table[k][1] for k in ks]
+        got = [env.obs(iterable_to_array_1d(list(vals))[0].tolist()), env.obs(iterable_to_array_1d(iter(list(vals)))[0].tolist()),
+               env.obs(sf.Series(list(vals)).values.tolist()),
+               env.obs(sf.Frame.from_records([[v, 0] for v in vals]).iloc[:, 0].values.tolist()),
+               env.obs(sf.Frame.from_items((('x', list(vals)),)).iloc[:, 0].values.tolist())]
+        return got, [ref] * 5
+    return rt.untraced(run)
+
+
+_add(Cond('iterable_element_orders', [('k0', 'int'), ('k1', 'int'), ('k2', 'int')], body_iter_orders, ranges={p: (0, len(ITER_KINDS) - 1) for p in ('k0', 'k1', 'k2')},
+        functions=['prepare_iter_for_array', 'iterable_to_array_1d'],
+        bounds=f'a Python iterable of 3 elements, the kind of every element symbolic over {ITER_KINDS} (3, 2**60+1, 1.5, NaN, None, "wxyz"): every multiset in EVERY order',
+        route='iterable_to_array_1d (list and iterator) / Series(list) / Frame.from_records column / Frame.from_items column: every element read back equals what was supplied', timeout=300))
